@@ -81,6 +81,7 @@ func runC03(c *Check, a *Analysis) {
 	p := c.P
 	ls := a.Locks()
 	sc := siteCounter{}
+	ruleSweepKeepsStreams(c, a, "R-SWEEP-KEEPS-STREAMS")
 	c.Rule("R-LOCK", "Conn.shutdown/closing/pending/streams only under Conn.mutex; Server.codecs under Server.mutex; Server.listeners under Server.mut", 10)
 	ruleLock(c, a, "R-LOCK", "Conn", "shutdown", "closing", "pending", "streams")
 	ruleLock(c, a, "R-LOCK", "Server", "codecs", "listeners")
